@@ -174,9 +174,25 @@ Definition parse_range (value : str) : option range_hdr :=
          end.
 
 (* ------------------------------------------------------------------ the responder *)
-(* file system as seen by io.open/os.fstat: regular files only, (path, size, mtime seconds) *)
-Definition fs := list (str * (Z * Z)).
-Fixpoint fs_get (f : fs) (p : str) : option (Z * Z) :=
+(* The modification time the responder reads, os.fstat(...).st_mtime: a float, given here as the
+   exact rational it denotes (numerator, denominator > 0).  HTTP dates have a resolution of one
+   second: Last-Modified is the time TRUNCATED to the second (floor; times are non-negative),
+   int(st.st_mtime) in the repaired code. *)
+Definition mtime := (Z * Z)%type.
+Definition mtime_sec (m : mtime) : Z := fst m / snd m.
+
+(* the code as found: datetime.fromtimestamp(st.st_mtime, utc).replace(microsecond=0).
+   fromtimestamp rounds the float to the nearest microsecond (ties to even) BEFORE the
+   microseconds are dropped, so x.9999996 is carried over to x+1. *)
+Definition round_half_even (num den : Z) : Z :=
+  let fl := (2 * num + den) / (2 * den) in
+  if ((2 * num + den) mod (2 * den) =? 0) && Z.odd fl then fl - 1 else fl.
+Definition mtime_sec_as_found (m : mtime) : Z :=
+  round_half_even (fst m * 1000000) (snd m) / 1000000.
+
+(* file system as seen by io.open/os.fstat: regular files only, (path, size, st_mtime) *)
+Definition fs := list (str * (Z * mtime)).
+Fixpoint fs_get (f : fs) (p : str) : option (Z * mtime) :=
   match f with
   | [] => None
   | (q, v) :: tl => if str_eqb p q then Some v else fs_get tl p
@@ -211,8 +227,8 @@ Definition serve (rt : route) (files : fs) (is_options : bool) (path : str)
         end in
       match opened with
       | None => R404
-      | Some (file, (size, mtime)) =>
-        if match ims with Some t => mtime <=? t | None => false end then R304 file
+      | Some (file, (size, mt)) =>
+        if match ims with Some t => mtime_sec mt <=? t | None => false end then R304 file
         else
           match rng with
           | RInvalid => R400
